@@ -43,6 +43,11 @@ def run(ctx):
         reach_rule(ctx, f, g, cfg)
         if cfg == "core-default":
             generators(ctx, f, cfg)
+            # a statistics object is handed to a checker that did not fill it only if the reuse predicate ignores what selects the
+            # checker: the hotspot reject checker then retries forever on a value the throttling checker registered (hang)
+            from . import rules_C11
+            for fam in ("hotspot", "circuitbreaker", "flow"):
+                rules_C11.reuse_shape(ctx, f, fam, cfg, R="C12.hang/reuse-shape")
 
 
 def reach_rule(ctx, f, g, cfg):
